@@ -53,6 +53,17 @@ func scevOrderSource(depth int) string {
 		fmt.Fprintf(&b, "\tif a == %d {\n\t\tt += %d\n\t}\n", i%40, 1+i%3)
 	}
 	b.WriteString("\treturn t\n}\n")
+	// a package of many functions (whatever is done per package above some size - a worker pool, a cache
+	// shared by the functions one worker handles - is exercised), several of which call themselves through
+	// one of their closures and are called from outside as well: the reference to such a function is
+	// spelt differently inside its own closure and everywhere else
+	for k := 0; k < 12; k++ {
+		fmt.Fprintf(&b, "\nfunc Rec%02d(n int) int {\n\tstep := func(k int) int {\n\t\tif k <= 0 {\n\t\t\treturn %d\n\t\t}\n\t\treturn Rec%02d(k-1) + 1\n\t}\n\treturn step(n)\n}\n", k, k, k)
+		fmt.Fprintf(&b, "\nfunc Use%02da(n int) int { return Rec%02d(n) + %d }\n\nfunc Use%02db(n int) int { return Rec%02d(n+1) * %d }\n", k, k, k+1, k, k, k+2)
+	}
+	for k := 0; k < 30; k++ {
+		fmt.Fprintf(&b, "\nfunc Leaf%02d(a, b int) int {\n\tif a > b+%d {\n\t\treturn a - b\n\t}\n\treturn a*%d + b\n}\n", k, k, k%5+2)
+	}
 	return b.String()
 }
 
